@@ -274,7 +274,7 @@ func (i *interpreter) resetGlobals() {
 
 func (p *Program) runPath(i *interpreter, ex *Explorer, solver *Solver, entry *ssa.Function, order []*ssa.Package, it workItem, cfg ExploreConfig) {
 	solver.NewPath()
-	ctx := &pathCtx{ex: ex, solver: solver, prefix: it.prefix, nameCnt: map[string]int{}, reach: map[string]bool{}, knownAct: map[string]*Term{}, assumes: map[string]bool{}, held: map[heldKey]int{}}
+	ctx := &pathCtx{ex: ex, solver: solver, prefix: it.prefix, nameCnt: map[string]int{}, reach: map[string]bool{}, knownAct: map[string]*Term{}, assumes: map[string]bool{}, held: map[heldKey]int{}, doms: map[*Term]*byteDom{}, fixed: map[uint64][]fixedTerm{}}
 	if it.model != nil {
 		ctx.setModel(it.model)
 	}
@@ -297,8 +297,10 @@ func (p *Program) runPath(i *interpreter, ex *Explorer, solver *Solver, entry *s
 				call(i, nil, token.NoPos, f, nil)
 			}
 		}
+		i.installStubs()
 		ctx.steps = 0
 		call(i, nil, token.NoPos, entry, nil)
+		ctx.flushAsserts()
 	}()
 	if pa != nil && pa.kind == "killed" && i.sched.fail != nil {
 		pa = i.sched.fail
@@ -424,4 +426,20 @@ func SortedCounts(m map[string]int) []string {
 	}
 	sort.Strings(r)
 	return r
+}
+
+// installStubs points library globals at engine-side implementations.
+func (i *interpreter) installStubs() {
+	vfp := i.prog.ImportedPackage(vfPkg)
+	if vfp == nil {
+		return
+	}
+	if rp := i.prog.ImportedPackage("crypto/rand"); rp != nil {
+		if g, ok := rp.Members["Reader"].(*ssa.Global); ok {
+			if rr := vfp.Type("RandReader"); rr != nil {
+				cell := value(structure{})
+				*i.globals[g] = iface{t: types.NewPointer(rr.Type()), v: &cell}
+			}
+		}
+	}
 }
